@@ -212,8 +212,11 @@ def machine_variants(name, mesh, tier):
              if (x, y, l) not in set(base)]
     chips = [(x, y) for x in range(w) for y in range(h)]
     maxl = scope(tier)["max_dead_links"]
+    if w * h > 4:
+        maxl = min(maxl, 1)   # pairs of dead links only on <= 4 chips
     if w * h > 6:
-        maxl = 1        # 3x3: pairs of dead links are left to C03
+        maxl = 0        # 3x3: fault-free and one dead chip; dead links are
+        #                 left to C03
     for dc in [None] + chips:
         if dc and len(chips) < 3:
             continue
